@@ -614,6 +614,17 @@ pub fn handle_xreadgroup(storage: &Arc<StorageEngine>, db: usize, parts: &[RespF
     let num_keys = remaining / 2;
     let mut results = Vec::new();
     
+    // Every id must be well-formed before anything is delivered: an error reply after an earlier stream
+    // of the same call was served would leave its entries pending, and consumed, for nobody
+    for j in 0..num_keys {
+        if let RespFrame::BulkString(Some(bytes)) = &parts[i + num_keys + j] {
+            let id_str = String::from_utf8_lossy(bytes);
+            if id_str != ">" && id_str != "0" && StreamId::from_string(&id_str).is_none() {
+                return Ok(RespFrame::error("ERR Invalid stream ID specified"));
+            }
+        }
+    }
+    
     // Every key must hold a stream that has the group, before anything is delivered
     for j in 0..num_keys {
         if let RespFrame::BulkString(Some(bytes)) = &parts[i + j] {
